@@ -14,7 +14,7 @@ open Pcore.Lat
 #print axioms C04_common_accepts_left
 #print axioms C04_common_tail
 #print axioms C04_generalize_float_inf_repaired
-#print axioms C04_accepts_complete_fails_scalar
+#print axioms C04_scalar_timespan_repaired
 #print axioms C04_accepts_complete_fails_object
 #print axioms C04_dtype_full_fails_emptykey
 #print axioms C04_common_iterable_repaired
